@@ -259,7 +259,9 @@ fn run_l2(sink: &mut CaseSink, o: &Opts, evs: &[Ev], pipelined: bool) {
                         Term::IoErr => peer.push_episode(if bytes.is_empty() { Episode::Reset } else { Episode::DataReset(bytes) }),
                         _ => peer.push(bytes),
                     }
-                    if pipelined && matches!(term, Term::Block) {
+                    // (not past the end of the handshake: what follows an OpenOk or a Close belongs to
+                    // the open connection, and the scripted server waits for the outcome there)
+                    if pipelined && matches!(term, Term::Block) && !fs.iter().any(|f| matches!(f, HF::OpenOk | HF::Close(..))) {
                         continue;
                     }
                     // wait until the episode has been consumed, then give the client a moment to answer
